@@ -5,7 +5,9 @@ package main
 // expected outcome of every (program, input) sequentially, then runs goroutines that loop over
 // the programs with goroutine-specific inputs and compares every outcome with the expected one.
 // Modes: shared (one Expr per program shared by all goroutines), own (each goroutine compiles its
-// own), mixed (own + goroutines that Compile and call package-level RegisterExts/RegisterVars).
+// own), mixed (own + goroutines that Compile and call package-level RegisterExts/RegisterVars),
+// sharedinput (shared Expr AND one decoded document per input text shared by all goroutines and
+// all programs: evaluation must treat the caller's document as read-only).
 // Data races are reported by the runtime on stderr (GORACE=halt_on_error=0); the caller counts them.
 
 import (
@@ -88,6 +90,17 @@ func main() {
 			jobs = append(jobs, j)
 		}
 	}
+	// one decoded document per distinct input text, for the sharedinput mode
+	sharedDocs := map[string]interface{}{}
+	for _, j := range jobs {
+		for _, raw := range j.raws {
+			if _, ok := sharedDocs[raw]; !ok {
+				var v interface{}
+				json.Unmarshal([]byte(raw), &v)
+				sharedDocs[raw] = v
+			}
+		}
+	}
 	var mu sync.Mutex
 	var mismatches []Mismatch
 	var evals int64
@@ -115,13 +128,17 @@ func main() {
 			for it := 0; it < spec.Iterations; it++ {
 				for _, j := range jobs {
 					e := j.e
-					if spec.Mode != "shared" {
+					if spec.Mode != "shared" && spec.Mode != "sharedinput" {
 						e, _ = jsonata.Compile(j.expr)
 					}
 					k := (g + it) % len(j.ins)
-					// deep copy of the input: each goroutine owns its document
 					var in interface{}
-					json.Unmarshal([]byte(j.raws[k]), &in)
+					if spec.Mode == "sharedinput" {
+						in = sharedDocs[j.raws[k]]
+					} else {
+						// deep copy of the input: each goroutine owns its document
+						json.Unmarshal([]byte(j.raws[k]), &in)
+					}
 					got := outcome(e, in)
 					atomic.AddInt64(&evals, 1)
 					if got != j.wants[k] {
